@@ -406,7 +406,7 @@ func (e *env) run(d caseDesc, nontrivial bool) {
 	switch {
 	case o.Kind == "panic":
 		fail("the function panicked")
-	case o.Kind == "unreadable" && d.GuardWallYear:
+	case o.Kind == "unreadable" && (d.GuardWallYear || yearOverflowText(o.Text) && d.ExpectInstant == nil && d.ExpectOffset == nil && d.ExpectWall == nil):
 		// outside the guard of the known finding "year 10000": nothing to compare
 		e.sum.Hist("guarded:output-year-outside-0000-9999")
 	case o.Kind == "unreadable":
@@ -430,6 +430,11 @@ func (e *env) run(d caseDesc, nontrivial bool) {
 	if nontrivial {
 		e.sum.Sample(map[string]interface{}{"case": d, "observed": o})
 	}
+}
+
+// yearOverflowText: RFC3339-shaped text whose year has five digits (wall reading in year 10000).
+func yearOverflowText(s string) bool {
+	return len(s) > 6 && strings.HasPrefix(s, "10000-")
 }
 
 func floorDiv(a, b int64) int64 {
@@ -754,7 +759,7 @@ func main() {
 	sum.Extra["smartparse_forms_exercised"] = len(formsSeen)
 
 	// 2. random instants x random forms x from/to zones
-	n2 := o.Count(1800, 120000)
+	n2 := o.Count(1800, 50000)
 	for i := 0; i < n2; i++ {
 		src := pickZone()
 		t, class := g.instant(e.z.locs[src])
@@ -776,7 +781,7 @@ func main() {
 	}
 
 	// 3. epoch: instant -> number -> text, both units, every instant class
-	n3 := o.Count(1200, 80000)
+	n3 := o.Count(1200, 30000)
 	for i := 0; i < n3; i++ {
 		zn := pickZone()
 		t, class := g.instant(e.z.locs[zn])
@@ -815,7 +820,7 @@ func main() {
 		e.run(back, true)
 	}
 	// zone-less text bound by fromTZ, then to epoch
-	for i := 0; i < o.Count(300, 20000); i++ {
+	for i := 0; i < o.Count(300, 8000); i++ {
 		zn := pickZone()
 		t, _ := g.instant(e.z.locs[zn])
 		shown := t.In(e.z.locs[zn])
@@ -833,7 +838,7 @@ func main() {
 		e.run(caseDesc{Fn: "toepoch", Datetime: text, FromTZ: zn, Unit: unit, ExpectOut: str(want)}, true)
 	}
 	// raw numbers (negative, with and without a millisecond remainder)
-	for i := 0; i < o.Count(400, 30000); i++ {
+	for i := 0; i < o.Count(400, 12000); i++ {
 		unit := []string{"SECOND", "MILLISECOND"}[r.Pick(2)]
 		sec := minSec + r.Int63n(maxSec-minSec+1)
 		if r.Chance(0.4) {
@@ -869,7 +874,7 @@ func main() {
 		{time.RFC3339Nano, true}, {time.RFC1123Z, true}, {"2006-01-02 15:04:05 -0700", true}, {"02/01/2006 15:04:05.000 -07:00", true},
 		{"Jan _2 2006 15:04:05", false}, {"2006-01-02T15:04:05.000", false}, {"Monday, 02-Jan-2006 15:04", false}, {time.ANSIC, false},
 	}
-	for i := 0; i < o.Count(500, 40000); i++ {
+	for i := 0; i < o.Count(500, 15000); i++ {
 		x := expl[r.Pick(len(expl))]
 		src := pickZone()
 		t, class := g.instant(e.z.locs[src])
